@@ -313,6 +313,10 @@ let run (ops : 'i idx_ops) (dump_index : 'i -> unit) (check_inv : params -> 'i s
          | Some false -> print_string "checkinv INVARIANT-FALSE\n"
          | None -> print_string "checkinv ok\n")
     | ["dumpindex"] -> (match !st.s_mem with Some m -> dump_index m.m_idx | None -> print_string "mem closed\n")
+    | ["compactbusy"] ->
+        (* Compact while a Backup holds the maintenance lock: refused, nothing happens
+           (ShapeCheck.backup_shape_ok: the lock is held for the whole Backup) *)
+        (match !st.s_mem with None -> print_string "compact err closed\n" | Some _ -> print_string "compact err busy\n")
     | ["dumpphys"] -> (match !st.s_mem with Some m -> !dump_phys_hook (Obj.repr m.m_idx) | None -> print_string "mem closed\n")
     | ["crash"; i; c] ->
         (* process crash inside the last state-changing command *)
